@@ -70,7 +70,16 @@ structure Field where
   argstr : Option Argstr        -- `None`: not part of the command
   position : Option Int         -- as written in the definition
   sep : Str
+  optional : Bool := false      -- the declared type is `T | None` (`is_optional(fld.type)`)
   deriving DecidableEq, Repr
+
+/-- `fld.type is bool`: the declared type ITSELF is `bool` (false for `bool | None`) -/
+def Field.typeIsBool (f : Field) : Bool := f.isBool && !f.optional
+
+/-- `tp is bool` with `tp = optional_type(fld.type) if is_optional(fld.type) else fld.type`, the test
+    `_command_pos_args` uses to choose the flag branch: the `| None` is unwrapped first, so an optional flag
+    is a flag.  (`isBool` is stated on the unwrapped type; `fieldArgs` below tests exactly this.) -/
+def Field.tpIsBool (f : Field) : Bool := if f.optional then f.isBool else f.typeIsBool
 
 /-- a field at run time: its position attribute after `shell.define`, and its value -/
 structure Bound where
